@@ -41,6 +41,7 @@ pub struct Profile {
 
 pub const LIMITS_ALL: &[Option<usize>] =
     &[None, None, None, Some(0), Some(1), Some(2), Some(9), Some(10), Some(11), Some(25), Some(100), Some(1000)];
+pub const LIMITS_HALF_NONE: &[Option<usize>] = &[None, None, None, None, None, None, Some(0), Some(1), Some(2), Some(10), Some(100), Some(1000)];
 pub const LIMITS_NONE: &[Option<usize>] = &[None];
 pub const LIMITS_FINITE: &[Option<usize>] = &[Some(0), Some(1), Some(2), Some(9), Some(10), Some(11), Some(25), Some(100), Some(1000)];
 
